@@ -71,7 +71,7 @@ def gen(rng, kind, tier):
     R = float(rng.choice([0.0, 1.0])) if rng.random() < 0.1 else float(10 ** rng.uniform(-6, 6))
     return {"cls": cls, "pos": [float(x) for x in rng.normal(0, 10 ** rng.uniform(-1, 3), dim)], "radius": R,
             "new_volume": float(10 ** rng.uniform(-12, 12)) if rng.random() > 0.05 else 0.0,
-            "width": None if rng.random() < 0.5 else 0.3}
+            "width": None if rng.random() < 0.5 else 0.3, "route": common.pick_route(rng, 0.5)}
 
 
 _c: dict = {}
@@ -202,6 +202,8 @@ def run_droplet(case, rec):
         d = droplets.SphericalDroplet(pos, R)
     else:
         d = droplets.DiffuseDroplet(pos, R, case["width"])
+    d = common.via(d, case.get("route"))  # a droplet's provenance must not matter
+    rec.count(f"route:{case.get('route')}")
     label = str(case)
     before = common.droplet_bytes(d)
 
